@@ -1,21 +1,5 @@
-"""Single source for MANIFEST.json (bin/mkmanifest renders it)."""
-
-CHECKS = {
-    "C10": dict(
-        text="Exhaustive-small-scope model-based replay: TLC enumerates every behaviour of the abstract wheel "
-             "(spec/Wheel.tla via WheelGen.tla) up to 2-3 scheduling operations over 2 keys with every delay up to "
-             "several revolutions and every phase of the wheel, plus seeded simulation of longer behaviours; each "
-             "behaviour is executed on the real TimingWheel (hand-driven ticker) and every tick's fired set, every "
-             "error class and every drain set is compared with the specification. WheelImpl.tla (slots/circles "
-             "mechanism) is model-checked to refine Wheel.tla.",
-        note="Trusted: TLC, the Go driver's barrier (run loop is sequential; goroutine count returns to baseline), "
-             "Go runtime. Delays below one interval and invalid arguments after Stop are outside the statement and "
-             "not generated. Bounds: N in {2,3,4,5,7} slots, <= 3 keys, delays <= 5 revolutions.",
-        technique="TLA+ spec (Wheel/WheelImpl) + TLC-generated behaviours replayed on the real wheel",
-        design="4/C10"),
-}
-
-NOT_YET = "check not built yet in this round (see DESIGN.md section 10 for the build order)"
+"""Data for MANIFEST.json that is not per-check (bin/mkmanifest collects META from checks/cXX.py)."""
 
 HOOK_COMMITS = ["428da50bb844be279c4bdb3ff3d567cc39c31a49", "4c96223e0aad98cdee211edf97dcb88b8070700d"]
+NOT_YET = "check not built yet in this round (see DESIGN.md section 10 for the build order)"
 NOT_APPLICABLE = {}
